@@ -40,7 +40,14 @@ def check(run, prog, tier):
 
     from rules import C14a
     shapes, ring = C14a.check(run, prog, SIZE)
+    # a writer may delegate the whole copy loop to one self-sufficient putter (add_message -> queue_message):
+    # it then has that putter's shape
     for fname in ("add_message", "add_vmessage"):
+        if fname not in shapes and fname in comm.funcs:
+            via = sorted({n.get("fn") for b, i, n in comm.funcs[fname].calls() if n.get("fn") in shapes and n.get("fn") not in ring.raw})
+            if len(via) == 1:
+                shapes[fname] = shapes[via[0]]
+                run.note("%s puts bytes into the ring through %s()" % (fname, via[0]))
         run.need(fname in shapes, "%s puts bytes into the ring (directly or through a helper)" % fname)
 
     a, v = shapes["add_message"], shapes["add_vmessage"]
